@@ -192,3 +192,18 @@ def olvl(n, plan, info=JobInfo()):
     if step["exp"]:
         t = t.export_options(**step["exp"])
     return [here, t(n - 1, plan[1:])]
+
+
+@task(check_valid="shallow")
+def ctxget_sh():
+    return get_context("a.b", 0)
+
+
+@task()
+def ctxmid():
+    return [ctxget()]
+
+
+@task(check_valid="shallow")
+def ctxmid_sh():
+    return [ctxget()]
